@@ -32,8 +32,9 @@ type Heredoc struct {
 	Delim     *Word    `json:"delim"`      // the word written after the operator
 	DelimText string   `json:"delim_text"` // after quote removal
 	Quoted    bool     `json:"quoted,omitempty"`
-	Lines     [][]Part `json:"lines"`              // body lines (without the newline); parts are lit only when Quoted
-	TabTerm   bool     `json:"tab_term,omitempty"` // <<- : terminator line indented with a tab
+	Lines     [][]Part `json:"lines"`               // body lines (without the newline); parts are lit only when Quoted
+	TabTerm   bool     `json:"tab_term,omitempty"`  // <<- : terminator line indented with a tab
+	MoreTabs  int      `json:"more_tabs,omitempty"` // ... and with this many further tabs
 	// ContTerm k > 0 (unquoted delimiters only): the terminator line is written with a
 	// backslash-newline after its k-th character (after the last one: an empty line follows)
 	ContTerm int `json:"cont_term,omitempty"`
